@@ -117,6 +117,12 @@ def run(chk: Check, tier: str):
     for var, cnt in (("lexAllPairs", 10), ("wAnyTie", 10), ("lexAllMcsF", 8), ("wMinCard", 8)):
         for c in infer.distinguishing_cases(rng, var)[: (cnt if tier == "quick" else 60)]:
             cases.append({"sig": c["sig"], "base": [(x["B"], x["A"]) for x in c["base"]], "qs": [(x["B"], x["A"]) for x in c["qs"]], "small": True, "wl_only": True})
+    # a conditional stated two or three times with identical formulas: the re-written / re-presented variants state the
+    # copies differently, the meaning (a multiset of conditionals) is the same
+    for _ in range(30 if tier == "quick" else 500):
+        c = infer.gen_case_dups(rng)
+        if c:
+            cases.append({"sig": c["sig"], "base": [(x["B"], x["A"]) for x in c["base"]], "qs": [(x["B"], x["A"]) for x in c["qs"]], "small": True})
     for g in rel.generated_cases(rng, n_big, atom_range=(6, 20), nq=5):
         cases.append({"sig": g["sig"], "base": g["base"], "qs": g["qs"], "small": False})
     configs = infer.configs_for(["p", "z", "w", "l", "c"], [False, True])
